@@ -114,3 +114,49 @@ Lemma ex_monitor_rejects :
   /\ monitor false ex_tbl (tr_prefix ++ [(0, EProbe 1002 0 9); (0, EProbe 1 7 0)])%N false
      = Some R_STATUS.
 Proof. vm_compute. repeat split. Qed.
+
+(* ---- the strict reading of "exactly once" fails on the model --------------------------------- *)
+(* TrapSet level: trap set, signal caught, trap replaced by another command,
+   take_caught_signal: the model (like yash-rs) reports no caught signal *)
+Definition refute_univ : list (N * disp) := [(SIGUSR1, Default)].
+Definition refute_gops : list gop :=
+  [GOp (OSetAction SIGUSR1 (ACommand 1) 1 false); GOp (ODeliver SIGUSR1);
+   GOp (OSetAction SIGUSR1 (ACommand 2) 2 false); GTakeAny].
+
+Lemma refute_trapset :
+  univ_ok refute_univ = true /\
+  Forall (fun o => gop_ok (map fst refute_univ) o = true) refute_gops /\
+  oracle_hist true (spec_inits refute_univ) (obs_inits refute_univ)
+              (model_trace (ginit refute_univ) refute_gops) = Some 9%N /\
+  oracle_hist false (spec_inits refute_univ) (obs_inits refute_univ)
+              (model_trace (ginit refute_univ) refute_gops) = None.
+Proof. split; [reflexivity|]. split; [repeat constructor|]. split; vm_compute; reflexivity. Qed.
+
+(* script level: USR1's action delivers USR2 and then replaces USR2's trap by
+   another command; neither the old nor the new action of USR2 runs *)
+Definition refute_tbl : table :=
+  [(1, [BProbe 1001 0; BRaise USR2 1; BTrap USR2 (TBody 3); BProbe 12 2]);
+   (2, [BProbe 1002 0]);
+   (3, [BProbe 1003 0])]%N.
+Definition refute_main : list cmd :=
+  [CB (BTrap USR1 (TBody 1)); CB (BTrap USR2 (TBody 2)); CB (BRaise USR1 4); CB (BProbe 1 0)]%N.
+Definition refute_trace : list event :=
+  [(0, EMark USR1 (TBody 1) 0); (0, EMark USR2 (TBody 2) 0); (0, ERaise USR1 0 4);
+   (0, EProbe 1001 4 0); (0, ERaise USR2 0 1); (0, EMark USR2 (TBody 3) 1); (0, EProbe 12 0 2);
+   (0, EProbe 1 4 0)]%N.
+
+Lemma refute_script :
+  script_ok refute_tbl refute_main = true /\
+  run_script refute_tbl 8 refute_main = Some (refute_trace, false) /\
+  monitor true refute_tbl refute_trace false = Some R_LATE /\
+  monitor false refute_tbl refute_trace false = None.
+Proof. repeat split; vm_compute; reflexivity. Qed.
+
+(* ---- the class of the known finding: the witnesses above are in it, the other
+   examples are not ------------------------------------------------------------------------------ *)
+Lemma ex_class :
+  retrap_class_free (ginit ex_univ) ex_gops = true /\
+  retrap_class_free (ginit refute_univ) refute_gops = false /\
+  trace_retrap_free ex_tbl ex_trace = true /\
+  trace_retrap_free refute_tbl refute_trace = false.
+Proof. repeat split; vm_compute; reflexivity. Qed.
